@@ -197,6 +197,9 @@ async fn run_srv(tok: &[&str]) -> String {
     }
     let (io, handle) = mock();
     let (cmd_tx, cmd_rx) = tokio::sync::mpsc::channel(8);
+    // `Fd…` drops the sender (server handle dropped / session evicted); later commands go nowhere
+    let (dead_tx, _dead_rx) = tokio::sync::mpsc::channel::<ServerCommand>(8);
+    let mut cmd_tx = cmd_tx;
     let task = tokio::spawn(run_server_session(
         Box::new(io),
         map,
@@ -206,8 +209,29 @@ async fn run_srv(tok: &[&str]) -> String {
         cmd_rx,
     ));
     let mut sent_eof = false;
+    // `F<n>.<hex>`: a flooding peer (n copies of a request are available at once) and a Shutdown
+    // command queued at the same moment: the command must not be starved by the ready frames
+    let mut flood: Option<usize> = None;
     if tok[5] != "-" {
         for step in tok[5].split(',') {
+            if let Some(arg) = step.strip_prefix('F') {
+                let (n, req) = arg.split_once('.').unwrap();
+                let (n, drop_sender) = match n.strip_prefix('d') {
+                    Some(n) => (n, true),
+                    None => (n, false),
+                };
+                let n: usize = n.parse().unwrap();
+                let req = unhex(req);
+                flood = Some(n * req.len());
+                handle.push(Rx::Data(req.repeat(n)));
+                if drop_sender {
+                    cmd_tx = dead_tx.clone();
+                } else {
+                    let _ = cmd_tx.send(ServerCommand::Shutdown).await;
+                }
+                settle_io(&handle, || task.is_finished()).await;
+                continue;
+            }
             if task.is_finished() {
                 break;
             }
@@ -269,6 +293,17 @@ async fn run_srv(tok: &[&str]) -> String {
         task.abort();
         "hung".to_string()
     };
+    if let Some(total) = flood {
+        // how much of the flood was still unread when the session ended is not determined (the
+        // `select!` picks a branch at random); honoured = the session ended with at least half of the
+        // flood unread
+        let left = handle.pending_bytes();
+        return format!(
+            "tx=* calls=* st=* end={} flood={}",
+            end,
+            if 2 * left >= total { "honoured" } else { "starved" }
+        );
+    }
     let tx: Vec<u8> = handle.take_writes().concat();
     let calls = log.lock().unwrap().join(";");
     handlers.sort_by_key(|(u, _)| *u);
